@@ -1,6 +1,8 @@
 package main
 
 import (
+	"bytes"
+	"encoding/json"
 	"fmt"
 	"math/rand"
 	"reflect"
@@ -11,6 +13,7 @@ import (
 	"unicode"
 
 	"github.com/zmap/zlint/v3/lint"
+	"verif/harness/internal/corpus"
 	"verif/harness/internal/ev"
 )
 
@@ -93,6 +96,16 @@ func ranks(m map[string]int, names []string) []int {
 var padPool = []string{"", " ", "  ", "\t", "\n", " \t ", "\r\n"}
 
 // tablesEvent: every lookup of a registry, as the public API shows it (names as ranks in the universe).
+func lintNamesOfKind(g lint.Registry, k string) []string {
+	switch k {
+	case "cert":
+		return g.CertificateLints().Names()
+	case "crl":
+		return g.RevocationListLints().Names()
+	}
+	return g.OcspResponseLints().Names()
+}
+
 func tablesEvent(g lint.Registry, universe []string, rk map[string]int, when string) ev.M {
 	v := viewOf(g)
 	tables := ev.M{"ev": "Tables", "when": when, "names": ranks(rk, v.Names)}
@@ -162,6 +175,23 @@ func tablesEvent(g lint.Registry, universe []string, rk map[string]int, when str
 	}
 	tables["kindNames"], tables["kindLints"], tables["kindSources"], tables["bySource"] = perKindNames, perKindLints, perKindSrc, bySrc
 	tables["byNameKinds"], tables["byNameMeta"] = byNameKinds, byNameMeta
+	// the JSON listing: one line per registered lint (the name of every line; rank 0 = a line that does not decode to a known name)
+	var jb bytes.Buffer
+	func() {
+		defer func() { recover() }()
+		g.WriteJSON(&jb)
+	}()
+	var jl []string
+	for _, ln := range strings.Split(strings.TrimSpace(jb.String()), "\n") {
+		var rec struct {
+			Name string `json:"name"`
+		}
+		if json.Unmarshal([]byte(ln), &rec) != nil {
+			rec.Name = ""
+		}
+		jl = append(jl, rec.Name)
+	}
+	tables["jsonListing"] = ranks(rk, jl)
 	// the sources every lookup of a kind knows, used as domain for the bySource comparison
 	dep := ev.M{}
 	for _, s := range srcList {
@@ -508,11 +538,29 @@ func cmdRegistry(args []string) {
 	// ---- C12 again: the lookups of the global registry after it has been filtered thousands of times, and after lints were
 	// registered late (every lookup, BySource included, had been used before): the tables must still be the model's
 	w.Emit(tablesEvent(g, universe, rk, "after the Filter calls"))
+	lateCorpus := corpus.Load()
 	for _, ms := range late {
 		registerMock(ms)
 		w.Emit(ev.M{"ev": "Register", "rank": rk[ms.Name], "kind": ms.Kind, "src": string(ms.Source), "name": ms.Name, "prefix": ms.Name[:1], "lower": true, "blank": false,
 			"hasDesc": true, "implNil": false, "eff": ev.Inst(time.Time{}), "ineff": ev.Inst(time.Time{}), "implType": "mock"})
 		w.Emit(tablesEvent(g, universe, rk, "after registering "+ms.Name))
+		// C01 in this history: a lint registered after the registry has been used gets a result from the next run of its kind
+		var t *Target
+		for _, o := range loadTargets(lateCorpus) {
+			if o.Kind == ms.Kind {
+				t = o
+				break
+			}
+		}
+		if t != nil {
+			rs, esc, hung := runSet(t, g)
+			e := ev.M{"ev": "LateRun", "kind": ms.Kind, "name": ms.Name, "hasResult": false, "results": 0, "lints": len(lintNamesOfKind(g, ms.Kind)), "escaped": esc != "" || hung}
+			if rs != nil {
+				_, e["hasResult"] = rs.Results[ms.Name]
+				e["results"] = len(rs.Results)
+			}
+			w.Emit(e)
+		}
 	}
 	// ---- C08 again: Filter over the registry as it is now, with the lately registered lints of every kind in it
 	views[0] = viewOf(g)
